@@ -149,9 +149,30 @@ fn calls_get() -> u64 {
     CALLS.with(|c| c.get())
 }
 
+/// pad kind with a big frame (at most MAX_HEAVY per body: ~35 KiB per level of recursion stays well
+/// inside the 64 KiB the guard keeps free; the memory a deep parse needs is depth x frame, so these
+/// cases are kept at depth <= HEAVY_MAX_DEPTH)
+pub const HEAVY_PAD: u8 = 5;
+pub const MAX_HEAVY: usize = 4;
+pub const HEAVY_MAX_DEPTH: usize = 4000;
+
 fn pad<'a>(p: BX<'a>, pads: &[u8]) -> BX<'a> {
     let mut p = p;
     for k in pads {
+        if *k == HEAVY_PAD {
+            // a user parser with a large frame: an 8 KiB local buffer stays on the stack while the
+            // wrapped parser (and with it the whole next level of the recursion) runs
+            let inner = p;
+            p = custom(move |inp: &mut chumsky::input::InputRef<'a, '_, In<'a>, Er<'a>>| {
+                let mut buf = [0u8; 8192];
+                std::hint::black_box(&mut buf);
+                let r = inp.parse(&inner);
+                std::hint::black_box(&mut buf);
+                r
+            })
+            .boxed();
+            continue;
+        }
         p = match k % 5 {
             0 => p.map(|x| cnt(x)).boxed(),
             1 => p.then_ignore(empty()).boxed(),
@@ -1070,7 +1091,14 @@ pub fn gen_case(seed: u64, idx: u64, tier: &str) -> LifeCase {
         (t, f, d as usize)
     };
     let npads = rng.below(13) as usize;
-    let pads: Vec<u8> = (0..npads).map(|_| rng.below(5) as u8).collect();
+    let mut pads: Vec<u8> = (0..npads).map(|_| rng.below(5) as u8).collect();
+    // one case in six has big frames (see HEAVY_PAD)
+    if depth <= HEAVY_MAX_DEPTH && rng.chance(1, 6) {
+        for _ in 0..rng.range(1, MAX_HEAVY as u64) {
+            let at = rng.usize(pads.len() + 1);
+            pads.insert(at, HEAVY_PAD);
+        }
+    }
     let stack_kib = *rng.pick(&STACKS_KIB);
     let shape_seed = rng.next_u64();
     let (base, _, c0) = gen_input(tmpl, depth, shape_seed);
